@@ -226,13 +226,20 @@ example : (step ⟨3, 2, 1, 1, -3/100⟩ ⟨[[2, 0, 3], [0, 0, 0], [5, 0, 6]], 0
     [⟨0, (0, 0), (0, 2), (0, 0)⟩, ⟨1, (2, 0), (2, 2), (2, 0)⟩]⟩ [2, 0]).2.obs.stepCount = 1 := by decide
 example : Consistent 3 2 ⟨[[2, 0, 3], [0, 0, 0], [5, 0, 6]], 0,
     [⟨0, (0, 0), (0, 2), (0, 0)⟩, ⟨1, (2, 0), (2, 2), (2, 0)⟩]⟩ := by decide
+/-! NOTE on what the membership theorems of this section do and do not cover (audits r4 #6, r5 #6, r6 #8): the dtype tag of every leaf
+is written by `toNValue` (by construction) — a wrong dtype in the real code cannot falsify `….valid (toNValue …) = true`; dtypes and
+field order of the real observations are compared by the `connector.spec` / `connector.state` ops (`nvalue`: field order, shape, dtype, data) and
+`jax.eval_shape` in the sweeps.  Shapes are READ OFF the value by `toNValue` (widths off the first row): see `…_obs_valid_only`. -/
+
 /-! #### (wave 4) membership in the DECLARED specs: structure, shapes, dtypes and bounds -/
 open Sp PzS PkS MaS
 
 /-- the model's `obsSpec` / `actionSpec` / `rewardSpec` / `discountSpec` ARE the specs generated from the real spec objects
 (Gen/Specs.lean) for the two catalogue configurations `Connector(RandomWalkGenerator(6, 3), time_limit=9)` and
 `Connector(UniformRandomGenerator(5, 2), time_limit=5)`: fields `grid`, `action_mask`, `step_count`; shapes `(n, n)`, `(k, 5)`,
-`()`; dtypes int32, bool, int32; bounds `[0, 3k + 1]`, `[0, 1]`, `[0, time_limit]` -/
+`()`; dtypes int32, bool, int32; bounds `[0, 3k + 1]`, `[0, 1]`, `[0, time_limit]`
+SPEC-ONLY third configuration `Connector(RandomWalkGenerator(9, 2), time_limit=11)`: grid size 9, `n − 1 = 8`, cell maximum `3k + 1 = 7`,
+5 actions, limit 11 pairwise distinct (audit r6 #7) -/
 theorem connector_obsSpec_generated :
     prefixed "observation_spec." (obsSpec ⟨6, 3, 9, 1, -3/100⟩) = declared "connector-6x3" "observation_spec." ∧
     prefixed "observation_spec." (obsSpec ⟨5, 2, 5, 1, -3/100⟩) = declared "connector-uniform" "observation_spec." ∧
@@ -241,8 +248,13 @@ theorem connector_obsSpec_generated :
     [("reward_spec", rewardSpec ⟨6, 3, 9, 1, -3/100⟩)] = declared "connector-6x3" "reward_spec" ∧
     [("reward_spec", rewardSpec ⟨5, 2, 5, 1, -3/100⟩)] = declared "connector-uniform" "reward_spec" ∧
     [("discount_spec", discountSpec ⟨6, 3, 9, 1, -3/100⟩)] = declared "connector-6x3" "discount_spec" ∧
-    [("discount_spec", discountSpec ⟨5, 2, 5, 1, -3/100⟩)] = declared "connector-uniform" "discount_spec" := by
-  refine ⟨by decide, by decide, by decide, by decide, by decide, by decide, by decide, by decide⟩
+    [("discount_spec", discountSpec ⟨5, 2, 5, 1, -3/100⟩)] = declared "connector-uniform" "discount_spec" ∧
+    prefixed "observation_spec." (obsSpec ⟨9, 2, 11, 1, -3/100⟩) = declared "spec-only-connector-9x2" "observation_spec." ∧
+    [("action_spec", actionSpec ⟨9, 2, 11, 1, -3/100⟩)] = declared "spec-only-connector-9x2" "action_spec" ∧
+    [("reward_spec", rewardSpec ⟨9, 2, 11, 1, -3/100⟩)] = declared "spec-only-connector-9x2" "reward_spec" ∧
+    [("discount_spec", discountSpec ⟨9, 2, 11, 1, -3/100⟩)] = declared "spec-only-connector-9x2" "discount_spec" := by
+  refine ⟨by decide +kernel, by decide +kernel, by decide +kernel, by decide +kernel, by decide +kernel, by decide +kernel,
+    by decide +kernel, by decide +kernel, by decide +kernel, by decide +kernel, by decide +kernel, by decide +kernel⟩
 
 /-- the invariant behind the membership theorems (grid `n × n`, cells in `0 … 3k`, `k` agents, counter ≥ 0) is established by
 BOTH generators for EVERY draw — no hypothesis on the drawn cells, so also for a boxed-in random walk (known finding CN1),
@@ -257,7 +269,11 @@ theorem connector_specInv_invariant (cfg : Cfg) (hk : 0 < cfg.k) :
    fun s acts h ha => Connector.step_specInv cfg hk s h acts ha⟩
 
 /-- the `reset` observation is accepted by `observation_spec.validate` for EVERY draw of either generator (all sizes `n ≥ 1`,
-`k ≥ 1`, `time_limit ≥ 0`) -/
+`k ≥ 1`, `time_limit ≥ 0`).  NOTE (audit r6 #2): `0 ≤ time_limit` suffices for the RESET observation only; the step theorems
+below need `step_count < time_limit`, i.e. `0 < time_limit`.  `Connector.__init__` accepts `time_limit = 0`, and there the
+first step's observation is NOT a member: `connector_time_limit_zero_witness`, `connector_time_limit_zero_step_obs_not_valid`.
+The dtype tag of every leaf is written by `toNValue` (by construction); dtypes and field order of the real observations are
+compared by the `connector.spec` / `state` ops and `jax.eval_shape` in the sweeps. -/
 theorem connector_reset_obs_valid (cfg : Cfg) (hn : 0 < cfg.n) (hk : 0 < cfg.k) (hT : 0 ≤ cfg.timeLimit) :
     (∀ cells, (obsSpec cfg).valid (toNValue (resetTs cfg (uniformGenerate cfg.n cfg.k cells)).obs) = true) ∧
     (∀ init tape, (obsSpec cfg).valid (toNValue (resetTs cfg (walkGenerate cfg.n cfg.k init tape).2).obs) = true) :=
@@ -281,8 +297,10 @@ example : SpecInv ⟨3, 2, 6, 1, -3/100⟩ ⟨[[2, 0, 3], [0, 0, 0], [5, 0, 6]],
 
 /-- WHOLE EPISODES: along the rollout (`Ep.rollout` = the L1 step iterated) of ANY joint actions from the reset state of ANY
 draw of either generator (more generally: any state with the invariant and counter 0), every observation emitted by one of the
-first `time_limit` steps is a member of the spec; the episode is over by then (`connector_episode_ends_by_limit`: step
-`time_limit` is LAST), so this covers every observation of every episode up to and including the terminal one -/
+first `time_limit` steps is a member of the spec; the episode is over by then (`Props.C11.connector_rollout_ends_by_limit`
+in Props/EpisodeInstances.lean: there is a first LAST timestep at or before step `time_limit`; the composed statement —
+reset observation, then every observation up to and including the first LAST — is `Props.C01.connector_episode_obs_valid`
+in the same file), so this covers every observation of every episode up to and including the terminal one -/
 theorem connector_rollout_obs_valid (cfg : Cfg) (hn : 0 < cfg.n) (hk : 0 < cfg.k) (s0 : State) (h : SpecInv cfg s0)
     (h0 : s0.stepCount = 0) (as : List (List Int)) (has : ∀ a ∈ as, a.length = cfg.k) (j : Nat)
     (hj : (j : Int) < cfg.timeLimit) (e : State × TimeStep Obs) (he : (Ep.rollout (step cfg) s0 as)[j]? = some e) :
@@ -300,12 +318,27 @@ theorem connector_obs_valid_along (cfg : Cfg) (hn : 0 < cfg.n) (hk : 0 < cfg.k) 
    Connector.rollout_obs_valid cfg hn hk _ (Connector.uniform_specInv cfg cells) rfl as has j hj e⟩
 
 /-- what membership means (so the theorems above are not hollow): `validate` accepts an observation ONLY IF the grid is
-`(n, n)` with `n²` cells in `0 … 3k + 1`, the mask `(k, 5)` and the counter in `[0, time_limit]` -/
+`(n, n)` with `n²` cells in `0 … 3k + 1`, the mask `(k, 5)` and the counter in `[0, time_limit]`.  CAVEAT (audit r6 #5):
+`shape2` reads the width off the FIRST row, so `(n, n)` here means "n rows, first row of length n, n² cells in total" — a ragged
+value with the right total is a member.  Rectangularity (`Rect2 grid n n`, `Rect2 mask k 5`) is part of `SpecInv` / proved of
+every emitted observation: `connector_step_obs_rect` below. -/
 theorem connector_obs_valid_only (cfg : Cfg) (o : Obs) (h : (obsSpec cfg).valid (toNValue o) = true) :
     shape2 o.grid = [cfg.n, cfg.n] ∧ (List.flatten o.grid).length = cfg.n * cfg.n ∧
     (∀ v ∈ List.flatten o.grid, 0 ≤ v ∧ v ≤ 3 * (cfg.k : Int) + 1) ∧
     shape2 o.actionMask = [cfg.k, 5] ∧ o.actionMask.flatten.length = cfg.k * 5 ∧
     0 ≤ o.stepCount ∧ o.stepCount ≤ cfg.timeLimit := Connector.obs_valid_only cfg o h
+
+/-- the rectangular facts `valid ∘ toNValue` does not imply (audit r6 #5), for every step observation: the grid is `n × n`
+(every row of length `n`), cells in `0 … 3k + 1`, the mask `k × 5`, the counter in `[0, time_limit]` -/
+theorem connector_step_obs_rect (cfg : Cfg) (hk : 0 < cfg.k) (s : State) (h : SpecInv cfg s)
+    (hlim : s.stepCount < cfg.timeLimit) (acts : List Int) (ha : acts.length = cfg.k) :
+    Rect2 (step cfg s acts).2.obs.grid cfg.n cfg.n ∧
+    (∀ r ∈ (step cfg s acts).2.obs.grid, ∀ v ∈ r, 0 ≤ v ∧ v ≤ 3 * (cfg.k : Int) + 1) ∧
+    Rect2 (step cfg s acts).2.obs.actionMask cfg.k 5 ∧
+    0 ≤ (step cfg s acts).2.obs.stepCount ∧ (step cfg s acts).2.obs.stepCount ≤ cfg.timeLimit := by
+  rw [Connector.obs_faithful]
+  exact Connector.observeL1_ok cfg _ (Connector.step_specInv cfg hk s h acts ha)
+    (by rw [Connector.step_count]; omega)
 
 /-- positive: the reset observation of a board; negative: a counter beyond the limit, a cell value `3k + 2`, the observation of
 a board of another size, a mask with a missing row -/
@@ -318,6 +351,25 @@ example :
     (obsSpec ⟨4, 2, 6, 1, -3/100⟩).valid (toNValue (resetTs cfg s).obs) = false ∧
     (obsSpec cfg).valid (toNValue { (resetTs cfg s).obs with actionMask := [[true, true, true, true, true]] }) = false := by
   decide +kernel
+
+/-! #### audit r6 #2: `time_limit = 0` is accepted by the constructor and is a real C01 violation -/
+
+/-- WITNESS: `Connector(time_limit=0)` (model: 3×3 board, 2 agents): the reset observation is a member of the declared spec, the
+first step (all no-ops) is LAST and its observation (`step_count = 1`, declared bounds `[0, 0]`) is NOT a member.  Real code:
+`validate` raises "Values were not all within bounds 0 <= 1 <= 0 for spec step_count" (reproduction in the report). -/
+theorem connector_time_limit_zero_witness :
+    let cfg : Cfg := ⟨3, 2, 0, 1, -3/100⟩
+    let s : State := uniformGenerate 3 2 [0, 6, 2, 8]
+    (obsSpec cfg).valid (toNValue (resetTs cfg s).obs) = true ∧
+    (step cfg s [0, 0]).2.stepType = .last ∧
+    (obsSpec cfg).valid (toNValue (step cfg s [0, 0]).2.obs) = false := by decide +kernel
+
+/-- … for ALL sizes, ALL states with a non-negative counter (every reset state) and ANY joint action: with `time_limit ≤ 0`
+the observation of the step is rejected by the declared spec — `0 < time_limit` in the step theorems is necessary -/
+theorem connector_time_limit_zero_step_obs_not_valid (cfg : Cfg) (h0 : cfg.timeLimit ≤ 0) (s : State)
+    (hs : 0 ≤ s.stepCount) (acts : List Int) :
+    (obsSpec cfg).valid (toNValue (step cfg s acts).2.obs) = false :=
+  Connector.time_limit_zero_step_obs_not_valid cfg h0 s hs acts
 
 /-- reward and discount of EVERY step from a state with `k` agents (any joint action of length `k`) and of `reset` are accepted
 by `reward_spec` (Array((k,), float)) and `discount_spec` (BoundedArray((k,), float, 0, 1)) -/
@@ -634,7 +686,7 @@ theorem connector_plan_playable (cfg : Cfg) (s0 : State) (routes : List (List Po
   rw [(Connector.plan_trace_eq cfg s0 routes P).1] at hs ⊢
   exact Connector.plan_episode cfg s0 routes P t s a hs ha
 
-/-- … and the episode ends with every agent connected; if the start state is feasible (as every generated reset state is,
+/-- (DISREGARDING `time_limit`, audit r6 #4.)  … and the episode ends with every agent connected; if the start state is feasible (as every generated reset state is,
 `connector_uniform_reset_feasible`, `connector_walk_reset_fresh`) the final state is a complete solution -/
 theorem connector_plan_solves (cfg : Cfg) (s0 : State) (routes : List (List Pos))
     (P : Connector.Plan cfg.n cfg.k s0 routes) :
@@ -645,7 +697,9 @@ theorem connector_plan_solves (cfg : Cfg) (s0 : State) (routes : List (List Pos)
   · rw [(Connector.plan_trace_eq cfg s0 routes P).2]; exact (Connector.plan_solves cfg s0 routes P).2
   · rw [(Connector.plan_trace_eq cfg s0 routes P).2]; exact Connector.plan_final_solution cfg s0 routes P
 
-/-- the headline, from the certificate: every generated board accepted by `walk_board_solvable` is solved by the
+/-- (DISREGARDING `time_limit`, audit r6 #4: the conclusion is about `finalL1`, the state after ALL plan steps whether
+or not a LAST timestep occurred on the way.)  The headline, from the certificate: every generated board accepted by
+`walk_board_solvable` is solved by the
 explicit episode `solveActs` (read off the recorded solution): all its joint actions are in-spec, and it ends in
 a complete solution — feasible with every agent connected.  (Step-by-step legality, mask, absence of collisions,
 L1 = L2 and LAST-by-completion are `connector_plan_playable` with the plan of `connector_cert_gives_plan`.) -/
@@ -659,7 +713,11 @@ theorem connector_walk_board_operationally_solvable (cfg : Cfg) (s : State) (sol
   rw [(Connector.plan_trace_eq cfg s _ P).2]
   exact Connector.plan_final_solution cfg s _ P (Connector.fresh_feasible cfg.n cfg.k s hfresh)
 
-/-- THE GENERATOR'S PROMISE, end to end: for every grid size, every agent count and ALL possible draws of
+/-- (audit r6 #4: DISREGARDING `time_limit` — `finalL1` keeps stepping past a LAST timestep; when the plan is longer than
+`time_limit` the real episode ends unsolved, see `connector_plan_ignores_time_limit_witness`; the episode-level form under
+`length ≤ time_limit` is `Props.C10.connector_plan_first_last` / `connector_walk_generated_board_solved_within_limit` in
+Props/EpisodeInstances.lean.)
+THE GENERATOR'S PROMISE, end to end: for every grid size, every agent count and ALL possible draws of
 `RandomWalkGenerator` in which no agent is boxed in at its start (CN1 otherwise), the emitted board is solved by the
 explicit in-spec episode read off the generator's own recorded solution: played on the implementation model `step`
 from the emitted reset state it ends in a complete solution -/
@@ -734,3 +792,28 @@ example :
     returnL1 cfg s (solveActs 3 2 s [[2, 1, 3], [0, 0, 0], [5, 4, 6]]) 0 = 94/100 ∧
     returnL1 cfg s (solveActs 3 2 s [[2, 1, 3], [0, 0, 0], [5, 4, 6]]) 1 = 88/100 := by decide +kernel
 end Props.C08
+
+namespace Props.C10
+/-- audit r6 #4, WITNESS that the plan theorems above disregard `time_limit`: on the certified 3×3 board with `time_limit = 2`
+the 4-step solving episode meets its first LAST timestep at step 2 with the board UNSOLVED, while `finalL1` (which steps on)
+reports a solution -/
+theorem connector_plan_ignores_time_limit_witness :
+    let s : State := ⟨[[2, 0, 3], [0, 0, 0], [5, 0, 6]], 0, [⟨0, (0, 0), (0, 2), (0, 0)⟩, ⟨1, (2, 0), (2, 2), (2, 0)⟩]⟩
+    let solved : Grid Int := [[2, 1, 3], [0, 0, 0], [5, 4, 6]]
+    let cfg : Cfg := ⟨3, 2, 2, 1, -3/100⟩
+    Ep.firstLastTS ((Ep.rollout (step cfg) s (solveActs 3 2 s solved)).map (·.2)) = some 2 ∧
+    solutionB 3 2 (finalL1 cfg s ((solveActs 3 2 s solved).take 2)) = false ∧
+    solutionB 3 2 (finalL1 cfg s (solveActs 3 2 s solved)) = true := by decide +kernel
+end Props.C10
+
+namespace Props.C06
+/-- audit r6 #10: feasibility along every episode from EVERY draw of the RANDOM-WALK generator in which no agent is boxed in
+(the default generator of `Connector-v2`; `connector_feasible_along` composed with `connector_walk_reset_fresh`): every state
+reached by ANY in-spec joint actions (legal or not) is feasible -/
+theorem connector_feasible_along_walk (cfg : Cfg) (hn : 0 < cfg.n) (hk : 0 < cfg.k) (init : List (Int × Int))
+    (tape : List (List Int)) (hv : validWalkDraw cfg.n cfg.k init tape = true) (hnb : ∀ d ∈ init, d.2 ≠ -1)
+    (actss : List (List Int)) (hspec : ∀ acts ∈ actss, acts.length = cfg.k ∧ ∀ a ∈ acts, 0 ≤ a ∧ a ≤ 4) :
+    ∀ s ∈ traceL1 cfg (walkGenerate cfg.n cfg.k init tape).2 actss, Feasible cfg.n cfg.k s :=
+  Props.C06.connector_feasible_along cfg hk actss hspec _
+    (Connector.fresh_feasible cfg.n cfg.k _ (Props.C10.connector_walk_reset_fresh cfg.n cfg.k hn hk init tape hv hnb))
+end Props.C06
